@@ -305,6 +305,16 @@ def b_list(V, st, args, kwargs, node):
         return MList(items)
     if isinstance(v, SV) and isinstance(v.t, SeqT):
         return SV(v.t, v.z)       # a COPY: not owned by whoever owns v
+    from .values import MRev
+    if isinstance(v, MRev) and isinstance(v.inner, SV) and isinstance(v.inner.t, SeqT):
+        # list(reversed(seq)) of a symbolic sequence: same length, element i is element n-1-i
+        inner = v.inner
+        r = fresh(inner.t, 'reversed')
+        n = z3.Length(inner.z)
+        i = z3.Int(fresh_name('ri'))
+        st.fact(z3.Length(r.z) == n)
+        st.fact(z3.ForAll([i], z3.Implies(z3.And(i >= 0, i < n), r.z[i] == inner.z[n - 1 - i])))
+        return r
     raise Unsupported('list() of %r' % (v,))
 
 
